@@ -614,23 +614,68 @@ def py_rules(ck, table):
             for h in getattr(st_, "handlers", []) or []:
                 visit(h.body, ctx + [(st_, h)])
 
-    visit(mod.tree.body, [])
-    ck.floor(R, len(binds), 2, "bindings of _websocket_mask in util.py")
+    # every binding of every module-level name, so that NAME can be followed through copies (NAME = result_var)
+    allb = {}
+
+    def visit_all(body, ctx):
+        for st_ in body:
+            if isinstance(st_, ast.Assign):
+                for t in st_.targets:
+                    if isinstance(t, ast.Name):
+                        allb.setdefault(t.id, []).append(("assign", st_, ctx))
+            elif isinstance(st_, ast.AnnAssign) and isinstance(st_.target, ast.Name) and st_.value is not None:
+                allb.setdefault(st_.target.id, []).append(("assign", st_, ctx))
+            elif isinstance(st_, ast.ImportFrom):
+                for a in st_.names:
+                    allb.setdefault(a.asname or a.name, []).append(("import", st_, ctx))
+            elif isinstance(st_, (ast.FunctionDef, ast.AsyncFunctionDef)):
+                allb.setdefault(st_.name, []).append(("def", st_, ctx))
+                continue
+            elif isinstance(st_, ast.ClassDef):
+                continue
+            for fld in ("body", "orelse", "finalbody"):
+                sub = getattr(st_, fld, None)
+                if isinstance(sub, list):
+                    visit_all(sub, ctx + [(st_, fld)])
+            for h in getattr(st_, "handlers", []) or []:
+                visit_all(h.body, ctx + [(st_, h)])
+
+    visit_all(mod.tree.body, [])
+    chain = set()
+    terminals = []
+
+    def follow(name):
+        if name in chain:
+            return
+        chain.add(name)
+        for kind_, st_, ctx in allb.get(name, []):
+            if kind_ == "assign" and isinstance(st_.value, ast.Name) and st_.value.id != ref.name and st_.value.id in allb and not any(k == "def" for k, _s, _c in allb[st_.value.id]):
+                follow(st_.value.id)
+            elif kind_ == "assign" and isinstance(st_.value, ast.Constant) and st_.value.value is None:
+                continue  # placeholder initialisation of a result variable
+            else:
+                terminals.append((name, kind_, st_, ctx))
+
+    follow(NAME)
+    if not terminals:
+        raise AnalysisError("util.py: no binding of %s found" % NAME)
     n_imp = 0
-    for kind_, st_, ctx in binds:
+    for name, kind_, st_, ctx in terminals:
         if kind_ == "assign":
-            ck.ob(R, None, st_, isinstance(st_.value, ast.Name) and st_.value.id == ref.name, "_websocket_mask is bound to the reference implementation", construct=q.unparse(st_), file=U)
+            ck.ob(R, None, st_, isinstance(st_.value, ast.Name) and st_.value.id == ref.name, "_websocket_mask is bound (directly or through %s) to the reference implementation" % name, construct=q.unparse(st_), file=U)
         elif kind_ == "import":
             n_imp += 1
-            al = [a for a in st_.names if (a.asname or a.name) == NAME][0]
+            al = [a for a in st_.names if (a.asname or a.name) == name][0]
             ck.ob(R, None, st_, st_.module == "tornado.speedups" and st_.level == 0 and al.name in table, "_websocket_mask is imported from tornado.speedups under a name the C method table exports (%r; table %s)" % (al.name, sorted(table)), construct=q.unparse(st_), file=U)
             trys = [(t, f) for t, f in ctx if isinstance(t, ast.Try) and f == "body"]
             okf = False
             for t, _f in trys:
                 for h in t.handlers:
                     if q.exc_is_caught("ImportError", q.handler_names(h)):
-                        last = h.body[-1] if h.body else None
-                        okf = isinstance(last, ast.Assign) and any(isinstance(tt, ast.Name) and tt.id == NAME for tt in last.targets) and isinstance(last.value, ast.Name) and last.value.id == ref.name
+                        # the handler ends (possibly before a `break` of an inlined selector) by binding the reference to a name of the chain
+                        tail = [x for x in h.body if not isinstance(x, (ast.Break, ast.Pass))]
+                        last = tail[-1] if tail else None
+                        okf = isinstance(last, ast.Assign) and any(isinstance(tt, ast.Name) and tt.id in chain for tt in last.targets) and isinstance(last.value, ast.Name) and last.value.id == ref.name
             ck.ob(R, None, st_, okf, "when the extension cannot be imported the reference implementation is used (ImportError handler ends by binding it)", construct="fallback for " + q.unparse(st_), file=U)
         else:
             ck.ob(R, None, st_, False, "_websocket_mask is not redefined", construct="def " + NAME, file=U)
